@@ -411,4 +411,99 @@ theorem positions_strict (cs : List BcSnap) (hwf : wfChanges cs = true) (hs : so
   simp only [posOf, Snap.lt] at hlt ⊢
   exact hlt
 
+/-! ### the cells of a chart's rows are renderable, one per slot -/
+
+/-- what the chart must grant for the rows the writer builds: measures 000–999 (¬D36), normalised 4/4 positions,
+two-character base-36 channels and ids, and no two objects on one (channel, slot) -/
+structure RowsOK (rows : List WRow) : Prop where
+  meas : ∀ r ∈ rows, 0 ≤ r.snap.measure ∧ r.snap.measure < 1000
+  norm : ∀ r ∈ rows, r.snap.met = some 4 ∧ 0 ≤ r.snap.beat ∧ r.snap.beat < 4
+  chan : ∀ r ∈ rows, ∃ a b, r.channel = [a, b] ∧ isB36 a = true ∧ isB36 b = true
+  value : ∀ r ∈ rows, r.value.length = 2 ∧ r.value.all isB36 = true
+  nocoll : rows.Pairwise (fun a b => ¬ (a.channel = b.channel ∧ a.snap.measure = b.snap.measure ∧ a.snap.beat = b.snap.beat))
+
+theorem slotOfRow_facts (r : WRow) (hmet : r.snap.met = some 4) (hb0 : 0 ≤ r.snap.beat) (hb4 : r.snap.beat < 4) :
+    (slotOfRow r).den = r.snap.beat.den * 4 ∧ 0 < (slotOfRow r).den ∧ (slotOfRow r).num < (slotOfRow r).den := by
+  have hden : (slotOfRow r).den = r.snap.beat.den * 4 := by
+    simp only [slotOfRow, hmet, Option.getD_some]
+    have : ((4 : Rat).floor).toNat = 4 := by decide +kernel
+    rw [this]
+  refine ⟨hden, by rw [hden]; exact Nat.mul_pos r.snap.beat.den_pos (by decide), ?_⟩
+  rw [hden]
+  have hn0 : 0 ≤ r.snap.beat.num := Rat.num_nonneg.mpr hb0
+  have hq : r.snap.beat = (r.snap.beat.num : Rat) / ((r.snap.beat.den : Nat) : Rat) := (Rat.num_div_den r.snap.beat).symm
+  have hdpos : (0 : Rat) < ((r.snap.beat.den : Nat) : Rat) := by exact_mod_cast r.snap.beat.den_pos
+  have hlt : (r.snap.beat.num : Rat) < 4 * ((r.snap.beat.den : Nat) : Rat) := by
+    rw [hq, div_lt_iff₀ hdpos] at hb4; exact hb4
+  have hnum : (((slotOfRow r).num : Nat) : Int) = r.snap.beat.num := by
+    simp only [slotOfRow]; exact Int.toNat_of_nonneg hn0
+  have : (((slotOfRow r).num : Nat) : Rat) < ((r.snap.beat.den * 4 : Nat) : Rat) := by
+    have e : (((slotOfRow r).num : Nat) : Rat) = (r.snap.beat.num : Rat) := by
+      rw [← Int.cast_natCast, hnum]
+    rw [e]; push_cast; linarith
+  exact_mod_cast this
+
+/-- **The cells of renderable rows are renderable, one per slot, and stand for the rows' objects.** -/
+theorem cells_ok (rows : List WRow) (hR : RowsOK rows) :
+    (∀ c ∈ cellsOfRows rows, CellOK c) ∧
+    (∀ k ∈ lineKeys (cellsOfRows rows), ((cellsOfRows rows).filter (sameLine k)).Pairwise (fun a b => a.idx ≠ b.idx) ∧
+      ∀ c ∈ (cellsOfRows rows).filter (sameLine k), c.idx < k.den) ∧
+    (cellsOfRows rows).map cellObj = rows.map rowObj := by
+  have hrow : ∀ r ∈ rows, r.snap.met = some 4 ∧ 0 ≤ r.snap.beat := fun r hr => ⟨(hR.norm r hr).1, (hR.norm r hr).2.1⟩
+  have hobj : (cellsOfRows rows).map cellObj = rows.map rowObj := cells_objects Generated.BMS.lcmThreshold rows hrow
+  have hpos : ∀ s ∈ rows.map slotOfRow, 0 < s.den := by
+    intro s hs
+    obtain ⟨r, hr, rfl⟩ := List.mem_map.mp hs
+    exact (slotOfRow_facts r (hR.norm r hr).1 (hR.norm r hr).2.1 (hR.norm r hr).2.2).2.1
+  obtain ⟨hlen, hdvd⟩ := newDens_dvd Generated.BMS.lcmThreshold (rows.map slotOfRow) hpos
+  -- every cell: its row, its denominator
+  have hcell : ∀ c ∈ cellsOfRows rows, ∃ r ∈ rows, ∃ nd, (slotOfRow r).den ∣ nd ∧ 0 < nd ∧ c = cellOf (slotOfRow r) nd := by
+    intro c hc
+    simp only [cellsOfRows, List.mem_map] at hc
+    obtain ⟨⟨sl, nd⟩, hp, rfl⟩ := hc
+    rw [zip_zipIdxFrom (rows.map slotOfRow) 0] at hp
+    obtain ⟨q, hq, hqe⟩ := List.mem_map.mp hp
+    have := hdvd q hq
+    simp only [Prod.mk.injEq] at hqe
+    obtain ⟨e1, e2⟩ := hqe
+    have hsl : sl ∈ rows.map slotOfRow := by
+      rw [← e1]
+      have := (zipIdxFrom_mem (rows.map slotOfRow) 0 q.1 (List.of_mem_zip hq).1).2.2
+      exact this
+    obtain ⟨r, hr, hrs⟩ := List.mem_map.mp hsl
+    refine ⟨r, hr, nd, ?_, ?_, by rw [hrs]⟩
+    · rw [hrs, ← e1, ← e2]; exact this.1
+    · rw [← e2]; exact this.2
+  have hck : ∀ c ∈ cellsOfRows rows, CellOK c ∧ c.idx < c.den := by
+    intro c hc
+    obtain ⟨r, hr, nd, hd, hnd, rfl⟩ := hcell c hc
+    obtain ⟨_, hdp, hnum⟩ := slotOfRow_facts r (hR.norm r hr).1 (hR.norm r hr).2.1 (hR.norm r hr).2.2
+    have hidx := (slot_exact (slotOfRow r) nd hdp hd).2 hnum hnd
+    refine ⟨⟨?_, ?_, ?_, ?_⟩, ?_⟩
+    · simpa [cellOf, slotOfRow] using hR.meas r hr
+    · simpa [cellOf] using hnd
+    · simpa [cellOf, slotOfRow] using hR.chan r hr
+    · simpa [cellOf, slotOfRow] using hR.value r hr
+    · simpa [cellOf] using hidx
+  refine ⟨fun c hc => (hck c hc).1, ?_, hobj⟩
+  intro k _
+  constructor
+  · -- same line + same slot would be two rows on one (channel, slot)
+    have hpwObj : ((cellsOfRows rows).map cellObj).Pairwise
+        (fun a b => ¬ (a.1 = b.1 ∧ a.2.1 = b.2.1 ∧ a.2.2.1 = b.2.2.1)) := by
+      rw [hobj, List.pairwise_map]
+      exact hR.nocoll.imp (fun {a b} h => by simpa [rowObj] using h)
+    rw [List.pairwise_map] at hpwObj
+    refine (hpwObj.filter (sameLine k)).imp_of_mem ?_
+    intro a b ha hb hab hidx
+    obtain ⟨a1, a2, a3⟩ := (sameLine_iff k a).mp (List.mem_filter.mp ha).2
+    obtain ⟨b1, b2, b3⟩ := (sameLine_iff k b).mp (List.mem_filter.mp hb).2
+    apply hab
+    simp only [cellObj]
+    exact ⟨a2.symm.trans b2, a1.symm.trans b1, by rw [hidx, ← a3, ← b3]⟩
+  · intro c hc
+    obtain ⟨hcm, hs⟩ := List.mem_filter.mp hc
+    obtain ⟨_, _, e3⟩ := (sameLine_iff k c).mp hs
+    rw [e3]; exact (hck c hcm).2
+
 end Reamber.BMS
